@@ -44,7 +44,7 @@ from bounded import bC03
 from bounded import grammars as G
 from bounded import specpeg as S
 from bounded.bC02 import PI, canon, has_pi, load_generated, time_limit, Hang
-from bounded.common import JOBS, Budget, bitem, chunked, pmap
+from bounded.common import Budget, bitem, pmap
 
 PROP = 'C04'
 FUNCTION = ('Grammar.parse(text, memoization=, perlinememos=, prune_memos_on_cut=, trace=, colorize=, parseinfo=) '
